@@ -408,6 +408,46 @@ def trace (umask : Nat) : FileSt → List Step → List FileSt
 def saveSteps (secure : Bool) (data : Bytes) : List Step :=
   (if secure then secureCreateSteps else [.create]) ++ [.write data]
 
+/-! ### `key.Save` as a protocol on TWO files: the target and its temporary sibling
+
+Variant switch (C13, DESIGN §2.5): `key.Save` either writes the target in place, or (after `fix: key files are
+replaced atomically`) applies the same creator to `<target>.tmp`, writes the encoding there and renames it over the
+target. The temporary file holds the secret too: it is a file of the secret class for as long as it exists. Which
+variant the tree under test has is the regenerated pair `Gen.saveWritesTo` / `Gen.saveRenamesOverTarget`. -/
+
+structure SaveSt where
+  target : FileSt
+  tmp : FileSt
+  deriving DecidableEq, Repr
+
+inductive SStep where
+  | onTarget (s : Step)
+  | onTmp (s : Step)
+  | renameTmp            -- os.Rename(tmp, target): the target now is the inode that was tmp (mode and content), tmp is gone
+  deriving DecidableEq, Repr
+
+def noFile : FileSt := ⟨false, 0, []⟩
+
+def execS (umask : Nat) (st : SaveSt) : SStep → SaveSt
+  | .onTarget s => { st with target := execStep umask st.target s }
+  | .onTmp s => { st with tmp := execStep umask st.tmp s }
+  | .renameTmp => if st.tmp.present then ⟨st.tmp, noFile⟩ else st
+
+def traceS (umask : Nat) : SaveSt → List SStep → List SaveSt
+  | _, [] => []
+  | st, s :: t => let st' := execS umask st s; st' :: traceS umask st' t
+
+/-- `key.Save(path, t, secure)` in the variant that renames (`renames = true`) or writes in place -/
+def saveProtocol (renames secure : Bool) (data : Bytes) : List SStep :=
+  if renames then (saveSteps secure data).map .onTmp ++ [.renameTmp] else (saveSteps secure data).map .onTarget
+
+/-- the protocol of the tree under test -/
+def codeSaveProtocol (secure : Bool) (data : Bytes) : List SStep := saveProtocol Gen.saveRenamesOverTarget secure data
+
+/-- a file that holds anything is owner-only -/
+def FileSt.tight (f : FileSt) : Prop := f.content ≠ [] → ownerOnly f.mode
+instance (f : FileSt) : Decidable f.tight := by unfold FileSt.tight; infer_instance
+
 /-! ## 3. the scanner -/
 
 def isInfixB (p : Bytes) : Bytes → Bool
